@@ -18,6 +18,7 @@ func init() {
 			{Name: "addoffset", Quick: 6000, Thorough: 200000, Run: c16Offset},
 			{Name: "static-flip", Quick: 4000, Thorough: 150000, Run: c16Flip},
 			{Name: "dense", Quick: 2400, Thorough: 80000, Run: c16Dense},
+			{Name: "every-dense-length", ExhaustiveN: func(t string) int { return len(denseLengths(t)) }, RunIndexed: c16DenseEveryLength},
 		},
 	})
 }
@@ -198,6 +199,39 @@ func c16Dense(c *Ctx) {
 	if r.Chance(0.3) {
 		n = r.Intn(6 * 1024)
 	}
+	c16DenseN(c, n)
+}
+
+// denseLengths: every word-slice length 0..2200 plus every length within 2 of a multiple of 1024 up to 24 chunks
+// (quick); every length 0..9000 (thorough).
+func denseLengths(tier string) []int {
+	var out []int
+	if tier == "thorough" {
+		for n := 0; n <= 9000; n++ {
+			out = append(out, n)
+		}
+		return out
+	}
+	for n := 0; n <= 2200; n++ {
+		out = append(out, n)
+	}
+	for k := 3; k <= 24; k++ {
+		for d := -2; d <= 2; d++ {
+			out = append(out, 1024*k+d)
+		}
+	}
+	return out
+}
+
+func c16DenseEveryLength(c *Ctx, index int) {
+	ls := denseLengths(c.Tier)
+	c.R = NewRng(mix(uint64(ls[index]), seedFromEnv()+16))
+	c.SetAdd("dense_lengths_enumerated", uint64(ls[index]))
+	c16DenseN(c, ls[index])
+}
+
+func c16DenseN(c *Ctx, n int) {
+	r := c.R
 	words := make([]uint64, n)
 	for ch := 0; ch*1024 < n; ch++ {
 		lo, hi := ch*1024, minI(n, ch*1024+1024)
